@@ -42,13 +42,23 @@ class installed:
     def __init__(self, spec):
         self.stream = Stream(spec or {})
 
+    _MISSING = object()
+
     def __enter__(self):
         import penman.model as pm
-        self._old = pm.random
+        # penman.model may not have a global named `random` at all (e.g. `from random import random`): the seam
+        # is then simply not on the path of the code, which draws from the interpreter-wide PRNG instead
+        self._old = getattr(pm, 'random', self._MISSING)
         pm.random = self.stream
         return self.stream
 
     def __exit__(self, *a):
         import penman.model as pm
-        pm.random = self._old
+        if self._old is self._MISSING:
+            try:
+                del pm.random
+            except AttributeError:
+                pass
+        else:
+            pm.random = self._old
         return False
